@@ -65,7 +65,7 @@ impl Watch {
                 }
             }
             CONNACK => {
-                if m.st != St::Connecting || m.is_client {
+                if m.st != St::Connecting {
                     return Expect::Refuse(false);
                 }
             }
@@ -84,7 +84,7 @@ impl Watch {
             }
             PUBREL => {
                 if !connected {
-                    if !m.persistent {
+                    if !m.persistent && !self.opts.offline {
                         return Expect::Refuse(false);
                     }
                     if !id_used {
@@ -335,8 +335,17 @@ impl Watch {
                     self.m.out.push(Out { id, qos: 2, stage: Stage::AwaitPubcomp, conn: 0, born: 0 });
                     self.m.flow_ambiguous = true;
                 }
-                if self.m.persistent {
-                    self.m.store.push(StoreEnt { id, rel: true, pkt: p.clone() });
+                // stored? (required in a persistent session; offline publishing may store as well)
+                let actual = self.ep.stored();
+                let was_stored = actual.len() == self.m.store.len() + 1 && actual.last().map_or(false, |l| l.kind == PUBREL && l.id == Some(id));
+                if was_stored {
+                    self.m.store.push(StoreEnt { id, rel: true, pkt: actual.last().unwrap().clone() });
+                } else if self.m.persistent {
+                    self.flag(&["C06"], "pubrel-not-stored-in-persistent-session", format!("{what}: persistent session but the PUBREL is not in the exported store"));
+                    return;
+                } else if !connected_before {
+                    self.flag(&["C06", "C11"], "accepted-neither-sent-nor-stored/PUBREL", format!("{what}: accepted while not connected, but neither sent nor stored"));
+                    return;
                 }
                 if connected_before {
                     self.expect_one_send(p, evs, &what);
